@@ -423,9 +423,9 @@ class TypeTransformer:
             data = self._attempt_from_number(data)
             if isinstance(data, str):
                 if data.lower() in self.FALSE_VALUES:
-                    return 0
+                    return t(0)
                 if data.lower() in self.TRUE_VALUES:
-                    return 1
+                    return t(1)
             elif isinstance(data, t):
                 # e.g. [True] -> True: re-create like the direct branch above (True -> 1)
                 return t(data)
@@ -605,7 +605,11 @@ class TypeTransformer:
                 ):
                     kw["microseconds"] = "-" + kw["microseconds"]
                 kw_ = {k: float(v) for k, v in kw.items() if v is not None}
-                return sign * t(**kw_)
+                value = sign * t(**kw_)
+                if type(value) is not t:
+                    # (int * timedelta is a plain timedelta: keep a declared subclass)
+                    value = t(days=value.days, seconds=value.seconds, microseconds=value.microseconds)
+                return value
             if self.no_explicit_cast:
                 raise ValueError(f"Invalid timedelta: {data}")
             tm = time.fromisoformat(data)
@@ -622,9 +626,15 @@ class TypeTransformer:
         if isinstance(data, t):
             return data
         data = self._attempt_from(data)
+        def as_t(tm: time):
+            # keep a declared subclass of time
+            if type(tm) is t:
+                return tm
+            return t(tm.hour, tm.minute, tm.second, tm.microsecond, tzinfo=tm.tzinfo, fold=tm.fold)
+
         if not self.no_data_loss:
             if isinstance(data, datetime):
-                return data.time()
+                return as_t(data.time())
             if isinstance(data, date):
                 return t()
         data = self._from_byte_like(data)
@@ -633,7 +643,7 @@ class TypeTransformer:
                 try:
                     return t.fromisoformat(data)
                 except ValueError:
-                    return self.to_datetime(f'1970-01-01 {data}').time()
+                    return as_t(self.to_datetime(f'1970-01-01 {data}').time())
         raise TypeError
 
     @registry.register(UUID)
@@ -672,7 +682,11 @@ class TypeTransformer:
         if not self.no_data_loss:
             try:
                 if data in t.__members__:  # noqa
-                    return t.__members__[data]  # noqa
+                    try:
+                        # a member's VALUE takes precedence over another member's name
+                        return t(data)  # noqa
+                    except ValueError:
+                        return t.__members__[data]  # noqa
             except TypeError:
                 # unhashable data (list / set / bytearray) is not a member name
                 pass
